@@ -83,6 +83,15 @@ def _exc(e):
 
 
 def real_worker(case):
+    """never raises: an exception crossing the process boundary may not unpickle (mxlpy's
+    MissingDependenciesError does not) and would stall the pool"""
+    try:
+        return _real_worker(case)
+    except BaseException as e:  # noqa: BLE001
+        return {"build": {"err": ["worker:" + type(e).__name__]}}
+
+
+def _real_worker(case):
     import warnings
 
     warnings.filterwarnings("ignore")
@@ -108,7 +117,10 @@ def real_worker(case):
         out["derived"] = sorted([k, list(d.args)] for k, d in lm.get_raw_derived().items())
     except Exception as e:  # noqa: BLE001
         out["derived"] = _exc(e)
-    out["pars"] = sorted([k, num(v)] for k, v in lm.get_parameter_values().items())
+    try:
+        out["pars"] = sorted([k, num(v)] for k, v in lm.get_parameter_values().items())
+    except Exception as e:  # noqa: BLE001
+        out["pars"] = _exc(e)
     rhs, sums, base_rhs = [], [], []
     lv = lv_of(case)
     for st in case.get("states", []):
